@@ -302,3 +302,61 @@ def gen_cases(prop, seed, tier, want_faults=False, want_bad_names=False, fault_o
         for s in scens.values():
             s.cleanup()
     return cases
+
+
+def gen_kill_cases(prop, seed, tier):
+    """add / update killed (SIGKILL) on entering every tracked system call; the directory left behind, and
+    what `check` says about it, go to Run/C08k"""
+    tl.build_storeop()
+    rng = random.Random(seed)
+    random.seed(seed)
+    cases = []
+    kinds = ["plain", "small", "no-tmp"] + (["nolf", "binary", "tmp-residue"] if tier == "thorough" else [])
+    scens = {k: Scenario(rng, k) for k in kinds}
+    try:
+        kill_ops = [("plain", ("add", "dave", "davepw", False)), ("no-tmp", ("add", "dave", "davepw", True)),
+                    ("small", ("update", "carol", "pw2")), ("plain", ("update", "bob", "pw3"))]
+        if tier == "thorough":
+            kill_ops += [("nolf", ("update", "carol", "pw2")), ("binary", ("update", "carol", "pw2")), ("tmp-residue", ("add", "dave", "davepw", False))]
+        for k, op in kill_ops:
+            st, before, after, res, changed = traced(prop, scens[k], op, k)
+            st.cleanup()
+            bc = res["before_counts"]
+            occ = {}
+            plan = []
+            for (kind, loc) in [(a[0], a[1]) for a in res["accesses"]]:
+                j = occ.get(kind, 0)
+                occ[kind] = j + 1
+                plan.append((kind, j))
+            for kind, j in plan:
+                sysc = tl.KIND_SYSCALL[kind]
+                when = bc.get(sysc, 0) + j + 1
+                st, before, after, res2, changed = traced(prop, scens[k], op, k, inject=(sysc, "signal=SIGKILL", when))
+                if res2["result"] != "crash":
+                    st.cleanup()
+                    continue      # the kill did not land inside the operation
+                # what the consistency check says about the directory the kill left behind
+                r = vlib.run([tl.STOREOP, st.cfg, "check", "-"], timeout=60)
+                chk = "RESULT ok" in r.stdout
+                user = op[1]
+                tab = []
+                tf = target_file(after, user)
+                if tf is not None:
+                    f = first_line_fields(after[tf])
+                    if f:
+                        h = st.hasher(f["pid"])
+                        if h:
+                            tab.append("(%s, %s, %s, Some %s)" % (h, tl.coq_bytes(f["salt"]), tl.coq_bytes(op[2].encode()), tl.coq_bytes(f["dig"])))
+                tables = "{| t_fails := []; t_kdf := [%s]; t_sha := []; t_known := [] |}" % "; ".join(tab)
+                coq = "KillCase %s %s %s %s %s %s" % (st.coq_cfg(), tables, tl.coq_dir(before), coq_op(op), tl.coq_dir(after), "true" if chk else "false")
+                case = {"prop": prop, "kind": "kill", "class": "kill/%s/%s" % (op[0], kind), "nontrivial": True, "coq": coq,
+                        "human": {"op": [str(x) for x in op], "killed_on_entering": "%s #%d" % (sysc, j), "events_before_the_kill": [list(map(str, e)) for e in res2["events"]],
+                                  "before": sorted(before.keys()), "after": sorted(after.keys()), "check_ok_after": chk}}
+                if changed:
+                    case["violation"] = "objects outside the base directory were modified: %s" % (changed,)
+                cases.append(case)
+                st.cleanup()
+    finally:
+        for s_ in scens.values():
+            s_.cleanup()
+    return cases
